@@ -223,6 +223,7 @@ package encode
 //@   requires [verb] (or (= e.drawOp #x00) (enc.isVerb e.drawOp))
 //@   modifies e.buf e.drawOp e.drawArgs mem.u8
 //@   ensures [C10.flush.empty C17.flush.empty] (and (= e.drawOp #x00) (= (len e.drawArgs) (int 0)))
+//@   ensures [C17.flush.noop C10.flush.noop C01.flush.noop] (=> (= (old e.drawOp) #x00) (and (= e.buf (old e.buf)) (= mem.u8 (old mem.u8))))
 //@   ensures [C01.tables.rows] (forall ((w!t (_ BitVec 64))) (=> (and (bvult w!t #x0000000000000100) (enc.isVerb ((_ extract 7 0) w!t))) (enctab.rowOK ((_ extract 7 0) w!t) drawOps[w!t].opcodeBase drawOps[w!t].maxRepCount drawOps[w!t].nArgs)))
 //@   let nA ((_ zero_extend 56) drawOps[e.drawOp].nArgs)
 //@   invariant 0 [flush.outer] (and (bvsle (int 0) i) (bvsle i (len e.drawArgs)) (bvsle (int 0) n) (bvsle n (len e.drawArgs)) (bvsle (bvadd i (bvmul n nA)) (len e.drawArgs)))
@@ -424,11 +425,15 @@ package encode
 //@   note counts C02
 //@   requires Inv
 //@   ensures [inv] Inv
-//@   modifies e.buf e.mode e.lod1 mem.u8
+//@   requires [verb.pending] (or (= e.drawOp #x00) (enc.isVerb e.drawOp))
+//@   modifies e.buf e.mode e.lod1 e.drawOp e.drawArgs mem.u8
 //@   ensures [C10.step.Bytes] (proto.afterNeutral S0 S1)
 //@   ensures [C10.bytes.err] (= result.1 (old e.err))
 //@   ensures [C10.bytes.result C17.bytes.result] (=> (= (old e.err) nil.Iface) (= result.0 e.buf))
-//@   ensures [C17.bytes.idem] (=> (not (= (old e.mode) #x00)) (and (= e.buf (old e.buf)) (= mem.u8 (old mem.u8)) (= e.mode (old e.mode))))
+// C01, converse direction: a stream that ends inside a path is accepted by the decoder; the Encoder then still holds the last
+// run of drawing operations in its buffer. Bytes writes it out (defect F7, fixed): on success nothing is left pending.
+//@   ensures [C01.conv.flushed] (=> (= result.1 nil.Iface) (and (= e.drawOp #x00) (= (len e.drawArgs) (int 0))))
+//@   ensures [C17.bytes.idem] (=> (and (not (= (old e.mode) #x00)) (or (= (old e.drawOp) #x00) (not (= (old e.err) nil.Iface)))) (and (= e.buf (old e.buf)) (= mem.u8 (old mem.u8)) (= e.mode (old e.mode))))
 
 //@ contract (*Encoder).Reset
 //@   note counts C02
